@@ -148,10 +148,10 @@ def check(ctx):
                 r_ = cls_.find_method(call.func.attr)
                 return r_[1] if r_ else None
             return None
-        key = (cell.cls.mod.rel, cell.cls.name)
-        if key not in _RESOLVERS:
-            _RESOLVERS[key] = resolver
-        ps = sem.paths(f, resolver=_RESOLVERS[key])
+        key = ('str', id(cell.cls))
+        if key not in _RESOLVERS or _RESOLVERS[key][0] is not cell.cls:       # one resolver object per class *object* (a variant of the tree has its own classes)
+            _RESOLVERS[key] = (cell.cls, resolver)
+        ps = sem.paths(f, resolver=_RESOLVERS[key][1])
         rets = [p for p in (ps or []) if p.outcome[0] == 'return']
         if ps is None or not rets:
             ctx.instance('C20.R1', "%s ['%s']" % (Model.qual(f), kind), 'undecided', 'no returning path summarised', nontrivial=False, node=f, file=F)
@@ -176,15 +176,15 @@ def check(ctx):
         if cell is None or cell.cls is None:
             raise AnalysisError("gser dispatch has no cell for '%s'" % kind)
         f = cell.cls.find_method('encode')[1]
-        key = (cell.cls.mod.rel, cell.cls.name)
-        if key not in _RESOLVERS:
+        key = ('time', id(cell.cls))
+        if key not in _RESOLVERS or _RESOLVERS[key][0] is not cell.cls:
             def resolver(call, cls_=cell.cls, mod_=cell.cls.mod):
                 if isinstance(call.func, ast.Name):
                     r_ = mod_.resolve_name(call.func.id)
                     return r_ if isinstance(r_, ast.FunctionDef) and r_._mod.rel == F else None
                 return None
-            _RESOLVERS[key] = resolver
-        tps = sem.paths(f, resolver=_RESOLVERS[key]) or []
+            _RESOLVERS[key] = (cell.cls, resolver)
+        tps = sem.paths(f, resolver=_RESOLVERS[key][1]) or []
         dparam = flow.param_names(f)[1]
         for call, arg in [q for p in tps if p.outcome[0] == 'return' for q in quoted_templates(p.outcome[3])]:
             # the argument must be produced by a formatter (function call), not the raw data
